@@ -279,13 +279,13 @@ PROPS = {
         'assumptions': ["H-BROWSER"],
     },
     'C08': {
-        'proofs': ['Ww.Proofs.C08'],
+        'proofs': ['Ww.Proofs.C08', 'Ww.Proofs.C07'],
         'gen_sections': ['Meta', 'Consts', 'pkg/session/data.go'],
-        'drivers': [{'name': 'meta'}, {'name': 'hist'}],
+        'drivers': [{'name': 'meta'}, {'name': 'hist'}, {'name': 'sched'}],
         'reasons': ['C08.'],
-        'class_fields': _merge(META_CLASS, HIST_CLASS),
-        'nontrivial': _merge({'meta': _meta_nontrivial}, HIST_NT),
-        'rule': HIST_RULE + "meta driver: boundary grid {refreshed,cooldown,half-life,expiry-5min,expiry,timeout,end} x {-1s,-1ns,0,+1ns,+1s} x 14 token lifetimes x 5 inactivity "
+        'class_fields': _merge(META_CLASS, HIST_CLASS, {'sched': ['store', 'procs', 'crash', 'trace', 'statuses', 'exists']}),
+        'nontrivial': _merge({'meta': _meta_nontrivial}, HIST_NT, {'sched': lambda f: ',' in f.get('schedule', '')}),
+        'rule': HIST_RULE + SCHED_RULE + " (for C08: the number of successful grants per schedule - requests that raced must not refresh during the cooldown of the winner) " + "meta driver: boundary grid {refreshed,cooldown,half-life,expiry-5min,expiry,timeout,end} x {-1s,-1ns,0,+1ns,+1s} x 14 token lifetimes x 5 inactivity "
                 "settings x 4 session ages, plus seeded random placements; distinct = distinct vector of predicate results; non-trivial = at least one predicate true",
         'level_text': "Proof: the refresh-schedule rules (refresh once expired, never during cooldown, never before expiry-5min / half-life, cooldown <= 1 min and never outlasting the token, "
                       "refresh opportunity before expiry, metadata endpoint fields) are Lean theorems, for every metadata record and every clock value, over definitions that are machine-translated from "
